@@ -209,11 +209,16 @@ pub struct RunOut {
 
 /// run the real optimiser on a Script governed by `policy`
 pub fn run_script(cfg: &OptCfg, init: &[f64], bounds: &[(f64, f64)], kt_zero: bool, use_expectations: bool, policy: Box<dyn Policy>) -> RunOut {
+    run_script_shadow(cfg, init, bounds, kt_zero, use_expectations, crate::probe::Mode::Agnostic, policy)
+}
+
+/// as run_script, with the mode of the second (shadow) model chosen by the caller
+pub fn run_script_shadow(cfg: &OptCfg, init: &[f64], bounds: &[(f64, f64)], kt_zero: bool, use_expectations: bool, shadow_mode: crate::probe::Mode, policy: Box<dyn Policy>) -> RunOut {
     let mut model = Model::new(kt_zero, use_expectations);
     model.keep_steps = true;
     let brain: SharedBrain = new_brain(model, policy);
     {
-        let mut sh = Model::new(kt_zero, false);
+        let mut sh = Model::with_mode(kt_zero, shadow_mode);
         sh.keep_steps = false;
         brain.lock().unwrap().shadow = Some(sh);
     }
